@@ -340,7 +340,7 @@ def classify(inp):
     return inp.get("op", "")
 
 
-BUDGET = dict(quick=220, thorough=1000)
+BUDGET = dict(quick=220, thorough=900)
 
 
 def harnesses(tier):
